@@ -3,13 +3,11 @@
 import json, os
 ROOT = os.path.dirname(os.path.dirname(os.path.abspath(__file__)))
 ALL = ["C%02d" % i for i in range(1, 21)]
-# id -> (technique, level text, level note, design ref)
-CLAIMED = {
- "C13": ("explicit-state exploration of the real queue code: every (capacity, offset, fill) state x every operation instance, std::deque reference model",
-         "Bounded exhaustive model checking on the implementation itself: all ring states with capacity <= bound (wrapped ones included) are start states and every operation instance of the alphabet (lengths/positions 0..capacity+1) is executed from each; content, return data, refusal and memory safety are compared with a std::deque after every step, so closure under the alphabet is covered. Right level because the defects live in segment arithmetic that only specific (offset, fill, length) combinations reach.",
-         "Trusted: the harness reference model (std::deque), AddressSanitizer for out-of-storage accesses, clang -O1 build of /repo sources. Capacities above the bound are only covered for the >1024-byte rotate paths (large jobs). Spurious refusals are counted, not flagged.",
-         "DESIGN.md C13"),
-}
+# claims/Cnn.json: {"technique", "level_text", "level_note", "design_ref"} for every claimed property
+import glob
+CLAIMED = {}
+for f in sorted(glob.glob(os.path.join(ROOT, "claims", "C*.json"))):
+    d = json.load(open(f)); CLAIMED[os.path.basename(f)[:-5]] = (d["technique"], d["level_text"], d["level_note"], d.get("design_ref", "DESIGN.md " + os.path.basename(f)[:-5]))
 PENDING_REASON = "check not built yet in this round (planned, see DESIGN.md section 8); not claimed until its harness has run to completion on the unchanged tree"
 checks = []
 for pid in ALL:
